@@ -38,15 +38,13 @@ def main(ctx: Ctx):
         if rec['k'] is None and rec['real'].get('obs'):
             o = rec['real']['obs'][0]
             own[(rec['prog'], rec['target'])] = (o.get('has_error'), str(o.get('error')).split(':')[0])
-    for i, rec in enumerate(recs):
+    def evaluate(c, rec):
         r = rec['real']
-        ctx.case((rec['prog'], rec['target'], rec['k'], rec['mode']), rec['k'] is not None, sample=landing.describe(rec) if i % 53 == 0 else None)
-        ctx.count(f'{inject.KINDS[rec["prog"]][2]}:{rec["mode"]}')
-        landing.correspond(ctx, rec)
+        landing.correspond(c, rec)
         if rec['k'] is None or r.get('ctor') != 'ok' or 'obs' not in r:
-            continue
+            return
         if 'landing-point-not-reached' in r['notes'] or 'terminate-never-arrived' in r['notes']:
-            continue
+            return
         kind = inject.KINDS[rec['prog']][2]
         o = r['obs'][0]
         got = (o.get('has_error'), str(o.get('error')).split(':')[0])
@@ -55,16 +53,20 @@ def main(ctx: Ctx):
         in_target = line == 0
         d = landing.describe(rec)
         if rec['mode'] == 'terminate' and r.get('term_ret') is not True:
-            ctx.fail(f'terminate-returned-{r.get("term_ret")}:{kind}', f'{rec["prog"]}: terminate(3) returned {r.get("term_ret")} (landing at line {line})', d)
+            c.fail(f'terminate-returned-{str(r.get("term_ret")).split(":")[0]}:{kind}', f'{rec["prog"]}: terminate(3) returned {r.get("term_ret")} (landing at line {line})', d)
         if not r.get('dead'):
-            ctx.fail(f'not-dead:{kind}', f'{rec["prog"]}: worker still alive after terminate (landing at line {line})', d)
-            continue
+            c.fail(f'not-dead:{kind}', f'{rec["prog"]}: worker still alive after terminate (landing at line {line})', d)
+            return
         if in_target:
             if got != (True, 'wte'):
-                ctx.fail(f'in-target-not-wte:{kind}:target={rec["target"]}', f'{rec["prog"]}: terminate landed inside the target but the outcome is {got}', d)
+                c.fail(f'in-target-not-wte:{kind}:target={rec["target"]}', f'{rec["prog"]}: terminate landed inside the target but the outcome is {got}', d)
         elif got != (True, 'wte') and got != mine:
             where = 'handler' if line in handler_lines(meta, rec['prog']) else 'other'
-            ctx.fail(f'neither-outcome:{kind}:target={rec["target"]}:{where}', f'{rec["prog"]} target={rec["target"]}: terminate landing at line {line} gives {got}: neither terminated nor the target\'s own outcome {mine}', d)
+            c.fail(f'neither-outcome:{kind}:target={rec["target"]}:{where}', f'{rec["prog"]} target={rec["target"]}: terminate landing at line {line} gives {got}: neither terminated nor the target\'s own outcome {mine}', d)
+    for i, rec in enumerate(recs):
+        ctx.case((rec['prog'], rec['target'], rec['k'], rec['mode']), rec['k'] is not None, sample=landing.describe(rec) if i % 53 == 0 else None)
+        ctx.count(f'{inject.KINDS[rec["prog"]][2]}:{rec["mode"]}')
+        landing.judge(ctx, rec, evaluate)
     # ---- the target's finally block runs (marker), for all six classes
     sess = inject.Session()
     try:
